@@ -253,6 +253,23 @@ def run(rep, facts, tier):
             'context_close looks at the whole flow stack (%s): inside a word definition a nested block is emitted as if the definition were '
             'its enclosing construct' % ', '.join(sorted({short(ev['callee']) for ev in whole}) or ['no floored read found']),
             cc.name, (whole or floored or [{'at': cc.j['span']}])[0]['at'])
+    # the same floor for everybody who SEARCHES the pending flows (the innermost definition for `local`, a loop for `break`): an
+    # iteration over flow_stack starts at ctx.fs_len, otherwise a block inside a definition finds that definition's locals
+    n_it = 0
+    for fn in sorted(fx.fns):
+        f = V(fn) if not V.transparent(fn) else fx.fns[fn]
+        for ev in awrite.field_events(fx, f, {'state::State': {'flow_stack'}}):
+            c = ev['callee'] or ''
+            if not (c.endswith('::iter') or c.endswith('::iter_mut') or c.endswith('::into_iter')):
+                continue
+            n_it += 1
+            recv = expr_str(f.expr_of_operand(ev['term']['args'][0]), -30)
+            okf = 'RangeFrom' in recv and 'fs_len' in recv
+            rep.add('C11.R3', 'C11.R3:%s:flow-search-starts-at-the-floor' % fn, okf,
+                    'iterates flow_stack[ctx.fs_len..]' if okf else
+                    '%s searches the whole flow stack (%s): inside a meta block it finds constructs of the enclosing contexts - a block in a '
+                    'definition resolves a name as that definition\'s local' % (short(fn), recv[:60]), fn, ev['at'])
+    rep.floor('C11.R3 searches over the pending flows', n_it, 2)
     # a constant redefined inside one block is updated in place: two entries of one name above the mark would be permuted by the
     # swap_remove purge below and the older value could win the next lookup
     cw = fx.fns.get('state::core_word_const')
